@@ -115,6 +115,7 @@ static void ht_add_node(struct hash_table *t, unsigned i, uint32_t bucket, unsig
 	n->key = HG[i].key;
 	n->value = HG[i].value;
 	n->refcount = (uint32_t)nd_present + nd_iters;
+	n->removed = nd_present ? QB_FALSE : QB_TRUE;   /* a node that is only kept alive by parked iterators is marked removed */
 #ifdef HT_CONCRETE_REFCOUNT
 	/* iterator units: the real code branches on refcount > 0, so the reference count of every node is a
 	 * concrete number (1 or 2, alternating); which part of it is "present" stays symbolic */
